@@ -226,6 +226,42 @@ func (w *World) globalInitNonNil(v *types.Var) bool {
 			}
 		}
 		scan(w.Pkgs)
+		// a global initialised with another non-nil global (var ErrNotFound = errors.ErrNotFound) is non-nil too
+		for round := 0; round < 4; round++ {
+			for _, p := range w.Pkgs {
+				for _, f := range p.Syntax {
+					for _, d := range f.Decls {
+						gd, ok := d.(*ast.GenDecl)
+						if !ok || gd.Tok != token.VAR {
+							continue
+						}
+						for _, sp := range gd.Specs {
+							vs := sp.(*ast.ValueSpec)
+							if len(vs.Values) != len(vs.Names) {
+								continue
+							}
+							for i, n := range vs.Names {
+								var id *ast.Ident
+								switch init := stripParens(vs.Values[i]).(type) {
+								case *ast.Ident:
+									id = init
+								case *ast.SelectorExpr:
+									id = init.Sel
+								}
+								if id == nil {
+									continue
+								}
+								if gv, ok := p.TypesInfo.Uses[id].(*types.Var); ok && gv.Pkg() != nil && gv.Parent() == gv.Pkg().Scope() {
+									if w.nonNilGlobals[gv.Pkg().Path()+"."+gv.Name()] {
+										w.nonNilGlobals[p.PkgPath+"."+n.Name] = true
+									}
+								}
+							}
+						}
+					}
+				}
+			}
+		}
 		// well-known sentinel errors of the standard library
 		for _, k := range []string{"io.EOF", "io.ErrUnexpectedEOF", "io.ErrShortWrite", "os.ErrNotExist", "os.ErrExist"} {
 			w.nonNilGlobals[k] = true
